@@ -35,10 +35,13 @@ const (
 	skBufReader
 	skSkipDec
 	skReaderDec
+	skBufReaderStrict // BufferReader.Skip over a non-allocating bufiox.Reader (no allocation cap needed)
+	skSkipDecStrict   // SkipDecoder.Next over a non-allocating bufiox.Reader
 	nSkippers
 )
 
-var skipperNames = [nSkippers]string{"Binary.Skip", "BytesSkipDecoder.Next", "BufferReader.Skip", "SkipDecoder.Next", "ReaderSkipDecoder.Next"}
+var skipperNames = [nSkippers]string{"Binary.Skip", "BytesSkipDecoder.Next", "BufferReader.Skip", "SkipDecoder.Next", "ReaderSkipDecoder.Next",
+	"BufferReader.Skip (non-allocating bufiox.Reader)", "SkipDecoder.Next (non-allocating bufiox.Reader)"}
 
 // ---- C02 ---------------------------------------------------------------------------------------------
 
@@ -358,6 +361,21 @@ func runSkippers(b []byte, t int8, plan faultio.Plan, allowAlloc bool) [nSkipper
 		o.out, o.err = d.Next(t)
 		o.hasOut = true
 		o.n = len(o.out)
+	})
+	run(skBufReaderStrict, func(o *skipOut) {
+		sr := &faultio.StrictReader{Data: b}
+		tr := thrift.NewBufferReader(sr)
+		o.err = tr.Skip(t)
+		o.n = int(tr.Readn())
+		tr.Recycle()
+	})
+	run(skSkipDecStrict, func(o *skipOut) {
+		sr := &faultio.StrictReader{Data: b}
+		sd := thrift.NewSkipDecoder(sr)
+		out, err := sd.Next(t)
+		o.out, o.err, o.hasOut = append([]byte(nil), out...), err, true
+		o.n = sr.ReadLen()
+		sd.Release()
 	})
 	if !allowAlloc {
 		return outs
@@ -698,4 +716,162 @@ func TestC08_Depth(t *testing.T) {
 	}
 	rec.Merge(b)
 	rec.SetExhaustive()
+}
+
+// TestC08_WrapSizes: fixed-width containers whose declared count times the element width reaches 2^31
+// or wraps around 2^32, with only a few bytes of data behind the header. Every skipper must reject
+// them (the allocating ones are skipped by the cap; the non-allocating reader variants run).
+func TestC08_WrapSizes(t *testing.T) {
+	rec := evid.New("C08", "c08_wrap_sizes", "enumeration: every fixed-width (key,value) pair (36 maps) and element type (6 lists, 6 sets) x declared counts {ceil(2^31/w)-1, ceil(2^31/w), ceil(2^31/w)+1, 2^32/w-1, 2^32/w, 2^32/w+1, 2^32/w+3, 2^33/w (if < 2^31)} for the element width w, x 0/1/17/40 bytes of data behind the header, also nested as the last field of a struct; distinct by construction")
+	defer rec.Flush()
+	fixed := []int8{ref.BOOL, ref.BYTE, ref.DOUBLE, ref.I16, ref.I32, ref.I64}
+	b := evid.NewBatch()
+	one := func(ty int8, hdr []byte, w int) bool {
+		var counts []uint64
+		for _, base := range []uint64{1 << 31, 1 << 32, 1 << 33} {
+			q := base / uint64(w)
+			for _, d := range []int64{-1, 0, 1, 3} {
+				c := uint64(int64(q) + d)
+				if c > 0 && c < 1<<31 {
+					counts = append(counts, c)
+				}
+			}
+		}
+		for _, cnt := range counts {
+			for _, tail := range []int{0, 1, 17, 40} {
+				data := append([]byte(nil), hdr...)
+				data = ref.Put32(data, uint32(cnt))
+				data = append(data, patternBytes(7, tail)...)
+				for _, wrap := range []bool{false, true} {
+					c := SkipCase{T: ty, Data: data, Plan: faultio.Plan{Chunks: []int{0}, ErrAt: -1}, Op: "wrap_size"}
+					if wrap { // as the last field of a struct, followed by STOP
+						c.T = ref.STRUCT
+						c.Data = append(append([]byte{byte(ty), 0, 1}, data...), 0)
+					}
+					var cv cov
+					if v := checkSkipGrammarRec(c, &cv, nil); v != nil {
+						failEnum(t, rec, "c08_skip_grammar", c, v)
+						return false
+					}
+					b.Evals++
+					b.Distinct++
+					b.Nontrivial++
+					for _, l := range cv.labels {
+						b.Labels[l]++
+					}
+				}
+			}
+		}
+		return true
+	}
+	ok := true
+	for _, kt := range fixed {
+		for _, vt := range fixed {
+			if ok {
+				ok = one(ref.MAP, []byte{byte(kt), byte(vt)}, ref.FixedSize(kt)+ref.FixedSize(vt))
+			}
+		}
+		if ok {
+			ok = one(ref.LIST, []byte{byte(kt)}, ref.FixedSize(kt)) && one(ref.SET, []byte{byte(kt)}, ref.FixedSize(kt))
+		}
+	}
+	rec.Merge(b)
+	rec.Sample(SkipCase{T: ref.MAP, Data: []byte{0x0a, 0x0a, 0x10, 0, 0, 0, 1, 2, 3}, Op: "wrap_size"})
+	rec.SetExhaustive()
+}
+
+// ---- C02: a failed call must not disturb the next call on the same decoder -----------------------
+
+// SkipRetryCase: a decoder is first asked for a type the data is not well formed for (the call fails and,
+// for decoders that only peek / only move a private cursor, consumes nothing from the input), then for the
+// type the data really holds.
+type SkipRetryCase struct {
+	T     int8         `json:"t"`
+	Enc   evid.Hex     `json:"enc"`
+	BadT  int8         `json:"bad_t"`
+	Trail evid.Hex     `json:"trail,omitempty"`
+	Plan  faultio.Plan `json:"plan"`
+}
+
+func checkSkipRetry(c SkipRetryCase, cv *cov) (v *evid.Violation) {
+	enc := []byte(c.Enc)
+	r := ref.Walk(enc, c.T)
+	if r.Class != ref.OK || r.N != len(enc) || r.MaxLevel > 63 {
+		return nil
+	}
+	stream := append(append([]byte(nil), enc...), c.Trail...)
+	bad := ref.Walk(stream, c.BadT)
+	if bad.Class == ref.OK || bad.MaxLevel >= 64 || bad.MaxAcquire > allocCap {
+		return nil // the first call would not fail (or is in the boundary zone / over the allocation cap)
+	}
+	failedFirst := 0
+	body := func() {
+		// BytesSkipDecoder
+		bd := thrift.NewBytesSkipDecoder(stream)
+		if _, err := bd.Next(c.BadT); err != nil {
+			failedFirst++
+			out, err := bd.Next(c.T)
+			if err != nil || !bytes.Equal(out, enc) {
+				v = evid.Failf("BytesSkipDecoder: after a failed Next(type %d), Next(type %d) on the same decoder returned (%d bytes, %v); the input starts with a well-formed value of %d bytes; value=%s got=%s", c.BadT, c.T, len(out), err, len(enc), hx(enc), hx(out))
+				return
+			}
+		}
+		bd.Release()
+		// SkipDecoder over a buffered reader and over the non-allocating reader
+		for variant := 0; variant < 2; variant++ {
+			var rd bufiox.Reader
+			name := "SkipDecoder (buffered reader)"
+			if variant == 0 {
+				p := c.Plan
+				p.ErrAt = len(stream)
+				rd = bufiox.NewDefaultReader(faultio.NewScriptReader(stream, p))
+			} else {
+				rd = &faultio.StrictReader{Data: stream}
+				name = "SkipDecoder (non-allocating reader)"
+			}
+			sd := thrift.NewSkipDecoder(rd)
+			if _, err := sd.Next(c.BadT); err != nil {
+				failedFirst++
+				if rd.ReadLen() != 0 {
+					v = evid.Failf("%s: a failed Next(type %d) consumed %d bytes from the reader", name, c.BadT, rd.ReadLen())
+					return
+				}
+				out, err := sd.Next(c.T)
+				if err != nil || !bytes.Equal(out, enc) || rd.ReadLen() != len(enc) {
+					v = evid.Failf("%s: after a failed Next(type %d), Next(type %d) on the same decoder returned (%d bytes, %v), ReadLen=%d; the stream starts with a well-formed value of %d bytes; value=%s got=%s", name, c.BadT, c.T, len(out), err, rd.ReadLen(), len(enc), hx(enc), hx(out))
+					return
+				}
+			}
+			sd.Release()
+		}
+	}
+	if p, st := evid.Safe(body); p != nil {
+		return &evid.Violation{Msg: fmt.Sprintf("panic: %v (type %d after failed type %d, value %s)", p, c.T, c.BadT, hx(enc)), Stack: st}
+	}
+	if v != nil {
+		return v
+	}
+	cv.nontrivial = failedFirst > 0 && bad.Fields >= 1
+	cv.labelIf(failedFirst > 0, "first_call_failed")
+	cv.labelIf(bad.Fields >= 1, "first_call_consumed_structure")
+	cv.label("bad_" + ref.ClassName(bad.Class))
+	return nil
+}
+
+func init() { register("c02_skip_retry", checkSkipRetry) }
+
+func genSkipRetry(t *rapid.T) SkipRetryCase {
+	v := genValue(t, 0, rapid.IntRange(0, 3).Draw(t, "vdepth"), false, false)
+	enc, _ := ref.Encode(&v)
+	c := SkipRetryCase{T: v.T, Enc: enc}
+	c.BadT = rapid.SampledFrom([]int8{ref.STRUCT, ref.MAP, ref.LIST, ref.SET, ref.STRING, ref.STRUCT, ref.MAP, 0, 1, 5, -1}).Draw(t, "badT")
+	c.Trail = rapid.SliceOfN(rapid.Byte(), 0, 6).Draw(t, "trail")
+	c.Plan = faultio.Plan{Chunks: []int{rapid.SampledFrom([]int{0, 1, 5}).Draw(t, "chunk")}, ErrAt: -1, WithData: rapid.Bool().Draw(t, "wd")}
+	return c
+}
+
+func TestC02_Retry(t *testing.T) {
+	rec := evid.New("C02", "c02_retry", "rapid: a well-formed value (plus trailer) is first requested under a type for which the bytes are not well formed (the call fails), then under its real type on the same decoder object, for BytesSkipDecoder and SkipDecoder (buffered and non-allocating reader): the second call must return exactly the value; non-trivial = the failed call had parsed >= 1 structural field before failing")
+	defer rec.Flush()
+	runRapid(t, rec, "c02_skip_retry", evid.Pick(20000, 100000), genSkipRetry, checkSkipRetry)
 }
